@@ -33,3 +33,17 @@ package tequila
 //@ ensures (len(path) == 0 || start < 0 || start > len(path) - 1) ==> result0 == "" && result1 == -1
 //@ ensures 0 <= start && start < len(path) && !Contains(path[start + 1:], "/") ==> result0 == path[start:] && result1 == -1
 //@ ensures 0 <= start && start < len(path) && Contains(path[start + 1:], "/") ==> result1 == start + 1 + IndexOf(path[start + 1:], "/") && result0 == path[start:start + 1 + IndexOf(path[start + 1:], "/")]
+
+// fan table: larger fan-in + fan-out first, on the two rows compared
+//@ closure FullGraph.SortedByFan$1
+//@ requires 0 <= i && i < len(*result) && 0 <= j && j < len(*result) && (*result)[i] != nil && (*result)[j] != nil
+// (the captured slice is itself called result: result0 is the comparison's value)
+//@ ensures result0 == ((*(*result)[i]).FanIn + (*(*result)[i]).FanOut > (*(*result)[j]).FanIn + (*(*result)[j]).FanOut)
+
+// C13, package-cluster rendering: a type (a leaf of the path tree) is declared as node<k> and recorded under its dotted
+// path with that same id, which is then used up: edges drawn from the table meet the declared nodes
+//@ spec LeafKey(prefix string, name string) string := prefix != "" ? prefix + "." + name : prefix + name
+//@ method FullGraph.buildGraphNode
+//@ modifies *
+//@ ensures old(len((*current).Children)) == 0 ==> nodes[LeafKey(s, old((*current).Value))] == "node" + Itoa(old((*fullGraph).nodeIndex)) && (*fullGraph).nodeIndex == old((*fullGraph).nodeIndex) + 1
+//@ loop 1 invariant true
